@@ -3,6 +3,7 @@ package main
 import (
 	"fmt"
 	"math"
+	"math/bits"
 	"sort"
 	"strings"
 
@@ -15,7 +16,7 @@ import (
 // generated, so later choices (crash points, keys that collide under the seed in effect) can depend
 // on what was observed. The finished command list is then replayed on the Coq model.
 type G struct {
-	everPut map[string]map[string]bool // every value ever put, per key
+	everPut   map[string]map[string]bool // every value ever put, per key
 	r         *rng
 	im        *interp.Impl
 	c         *Case
@@ -368,4 +369,36 @@ func (g *G) indexShape() {
 func (g *G) finish() (*Case, [][]string) {
 	g.indexShape()
 	return g.c, g.impl
+}
+
+// fixHash overwrites the last 4 bytes of key (len(key) a multiple of 4, at least 4) so that the
+// database's hash function (32-bit murmur3 with the seed in effect) maps it to target: the last block
+// of murmur3 and its finalisation are bijections of the 32-bit state.
+func fixHash(key []byte, seed uint32, target uint32) {
+	inv := func(a uint32) uint32 { // inverse of an odd number modulo 2^32
+		x := a
+		for i := 0; i < 5; i++ {
+			x *= 2 - a*x
+		}
+		return x
+	}
+	unfmix := func(h uint32) uint32 {
+		h ^= h >> 16
+		h *= inv(0xc2b2ae35)
+		h ^= h>>13 ^ h>>26
+		h *= inv(0x85ebca6b)
+		h ^= h >> 16
+		return h
+	}
+	const c1, c2 = 0xcc9e2d51, 0x1b873593
+	n := len(key)
+	if n < 4 || n%4 != 0 {
+		return
+	}
+	prefix := key[:n-4]
+	before := unfmix(pogreb.VerifHash(prefix, seed)) ^ uint32(len(prefix))
+	after := unfmix(target) ^ uint32(n)
+	k := bits.RotateLeft32((after-0xe6546b64)*inv(5), -13) ^ before
+	block := bits.RotateLeft32(k*inv(c2), -15) * inv(c1)
+	key[n-4], key[n-3], key[n-2], key[n-1] = byte(block), byte(block>>8), byte(block>>16), byte(block>>24)
 }
